@@ -105,19 +105,27 @@ FORBIDDEN = re.compile(r'\bsorry\b|\badmit\b|^\s*axiom\s|native_decide|bv_decide
                        r'\bunsafe\s|maxHeartbeats\s+0', re.M)
 
 
+def property_modules(prop_id):
+    """The Lean modules holding the property theorems of `prop_id`: Props/<ID>.lean and every Props/<ID>_*.lean
+    (a second file is used where the theorems need lemma files that themselves import Props/<ID>.lean)."""
+    d = LEAN / 'Mistletoe' / 'Props'
+    files = [d / (prop_id + '.lean')] + sorted(d.glob(prop_id + '_*.lean'))
+    return ['Mistletoe.Props.' + f.stem for f in files if f.exists()]
+
+
 def property_theorems(prop_id):
-    """Names and statements of the property theorems: every `theorem <ID>_…` in Props/<ID>.lean."""
-    path = LEAN / 'Mistletoe' / 'Props' / (prop_id + '.lean')
-    if not path.exists():
-        return {}, None
-    src = path.read_text()
-    ns = re.search(r'^namespace\s+(\S+)', src, re.M)
-    ns = ns.group(1) if ns else ''
-    res = {}
-    clean = strip_lean_comments(src)
-    for m in re.finditer(r'^theorem\s+(' + prop_id + r'_\w+)(.*?):=', clean, re.M | re.S):
-        res[(ns + '.' if ns else '') + m.group(1)] = ' '.join((m.group(1) + m.group(2)).split())
-    return res, ns
+    """Names and statements of the property theorems: every `theorem <ID>_…` in Props/<ID>.lean, Props/<ID>_*.lean."""
+    res, ns0 = {}, None
+    for mod in property_modules(prop_id):
+        path = LEAN / (mod.replace('.', '/') + '.lean')
+        src = path.read_text()
+        ns = re.search(r'^namespace\s+(\S+)', src, re.M)
+        ns = ns.group(1) if ns else ''
+        ns0 = ns0 or ns
+        clean = strip_lean_comments(src)
+        for m in re.finditer(r'^theorem\s+(' + prop_id + r'_\w+)(.*?):=', clean, re.M | re.S):
+            res[(ns + '.' if ns else '') + m.group(1)] = ' '.join((m.group(1) + m.group(2)).split())
+    return res, ns0
 
 
 def import_cone(modules):
@@ -174,7 +182,7 @@ def lean_prepare(prop_id, extra_modules=(), thorough=False, log=print, prebuild=
             st.bad.append('theorems not rebuilt: ' + skip)
             st.build_log = skip
         else:
-            targets = ['Mistletoe.Props.' + prop_id] + list(extra_modules)
+            targets = property_modules(prop_id) + list(extra_modules)
             rc, out = _run(['lake', 'build'] + targets, cwd=LEAN, timeout=BUILD_TIMEOUT)
             st.build_log = out
             st.build_ok = rc == 0
@@ -192,7 +200,7 @@ def lean_prepare(prop_id, extra_modules=(), thorough=False, log=print, prebuild=
         st.bad.append('no property theorems found for ' + prop_id)
         return st
     # source hygiene on the whole development (comments stripped)
-    for f in import_cone(['Mistletoe.Props.' + prop_id] + list(extra_modules) + ['Main'] + (['PropsMain'] if 'propsdriver' in extra_modules else [])):
+    for f in import_cone(property_modules(prop_id) + list(extra_modules) + ['Main'] + (['PropsMain'] if 'propsdriver' in extra_modules else [])):
         m = FORBIDDEN.search(strip_lean_comments(f.read_text()))
         if m:
             st.bad.append('forbidden construct %r in %s' % (m.group(0).strip(), f.relative_to(LEAN)))
@@ -203,7 +211,7 @@ def lean_prepare(prop_id, extra_modules=(), thorough=False, log=print, prebuild=
     audit_dir = LEAN / '.lake' / 'audit'
     audit_dir.mkdir(parents=True, exist_ok=True)
     audit = audit_dir / (prop_id + '.lean')
-    audit.write_text('import Mistletoe.Props.%s\n' % prop_id +
+    audit.write_text(''.join('import %s\n' % m for m in property_modules(prop_id)) +
                      ''.join('#print axioms %s\n' % t for t in thms))
     rc, out = _run(['lake', 'env', 'lean', str(audit)], cwd=LEAN, timeout=1200)
     text = ' '.join(out.split())
@@ -221,7 +229,7 @@ def lean_prepare(prop_id, extra_modules=(), thorough=False, log=print, prebuild=
         if extra:
             st.bad.append('audit: %s depends on %s' % (t, sorted(extra)))
     if thorough:
-        mods = ['Mistletoe.Props.' + prop_id] + [m for m in extra_modules if m.startswith('Mistletoe.')]
+        mods = property_modules(prop_id) + [m for m in extra_modules if m.startswith('Mistletoe.')]
         t0 = time.time()
         rc, out = _run(['lake', 'env', 'leanchecker'] + mods, cwd=LEAN, timeout=3000)
         log('leanchecker %s: rc=%d in %.1fs' % (' '.join(mods), rc, time.time() - t0))
